@@ -400,6 +400,9 @@ def stack(arrays, axis=None, keys=None, align=False, **kwargs):
         kwargs['strict'] = True
         arrays = align_(arrays, **kwargs)
 
+    # match dimensions by name, not by position
+    arrays = [a if a.dims == tuple(dims) or set(a.dims) != set(dims) else a.transpose(dims) for a in arrays]
+
     # make it a numpy array
     data = [a.values for a in arrays]
     data = np.array(data)
